@@ -38,6 +38,8 @@ def explore_cell(cell):
     best = {}
     if cell.get("por"):
         def run_por(prefix, sleep_at):
+            if cell.get("driver") == "calibrator":
+                return rh.run_calibrator(cfg, prefix, mode=mode, sleep_at=sleep_at)
             return rh.run_protocol(cfg, prefix, mode=mode, sleep_at=sleep_at)
 
         runs = ex.explore_por(run_por, max_execs=max_execs)
@@ -146,8 +148,8 @@ def main(ctx):
     for shape in ([[2], [1, 2], [2, 2]] if ctx.quick else [[1], [2], [3], [1, 1], [1, 2], [2, 2], [2, 1, 2]]):
         for agent in ({"kind": "scripted", "script": [1, 0, 1]}, {"kind": "eps", "eps": 0.5, "seed": S, "alpha": 0.5}):
             for samplers in ("with_halton", "without_halton"):
-                cells.append({"cfg": {"shape": shape, "losses": "real", "agent": agent, "samplers": samplers, "seed": S}, "mode": "sync", "bound": 1 if ctx.quick else 2, "max_execs": 4000, "driver": "calibrator"})
-    ctx.bounds = {"shapes": shapes, "second_driver": "real Calibrator.calibrate on [2],[1,2],[2,2] (thorough: 7 shapes), preemption bound " + ("1" if ctx.quick else "2"), "tierA": "ALL interleavings modulo commutation of independent steps (sleep-set reduction) for every shape and configuration; unreduced all-interleavings cross-check on shapes [1],[2]; unreduced search with preemption bound " + ("2" if ctx.quick else "3") + " on every fourth configuration of the larger shapes",
+                cells.append({"cfg": {"shape": shape, "losses": "real", "agent": agent, "samplers": samplers, "seed": S}, "mode": "sync", "bound": None, "max_execs": 4000, "driver": "calibrator", "por": True})
+    ctx.bounds = {"shapes": shapes, "second_driver": "real Calibrator.calibrate on [2],[1,2],[2,2] (thorough: 7 shapes), all interleavings modulo independence", "tierA": "ALL interleavings modulo commutation of independent steps (sleep-set reduction) for every shape and configuration; unreduced all-interleavings cross-check on shapes [1],[2]; unreduced search with preemption bound " + ("2" if ctx.quick else "3") + " on every fourth configuration of the larger shapes",
                   "tierB_shapes": tierb_shapes, "tierB_preemption_bound": "1" if ctx.quick else "2 (1 for > 4 batches)",
                   "agents": "all scripted action sequences over {0,1} (length <= 3 quick / 4 thorough) + eps-greedy eps {0,.5} seeds {S,S+1}",
                   "loss_scripts": list(rh.LOSS_SCRIPTS), "sampler_sets": ["with_halton", "without_halton"], "cells": len(cells)}
